@@ -37,7 +37,10 @@ void resetWorld(u64 maxBuf, u64 gcThr, bool allowSwitch)
   World* w = g;
   g->t->onData([w](SessionId sid, iora::core::BufferView d, std::chrono::steady_clock::time_point) {
     std::string s = "cb:" + std::to_string(sid) + ":" + vh::toHex(d.data(), d.size());
-    if (w->sched) mark('C', s); else w->evs.push_back(s);
+    // DetSched only schedules at lock/wait/notify: without explicit points the window between the caller's unlock and the
+    // callback (and the callback's own duration - a slow consumer) could never be interleaved with the other thread
+    if (w->sched) { for (int k = 0; k < 4; ++k) ds::yield_point("cb-entry"); mark('C', s); ds::yield_point("cb-exit"); }
+    else w->evs.push_back(s);
   });
   g->t->onClose([w](SessionId sid, const TransportErrorInfo&) {
     std::string s = "gclose:" + std::to_string(sid);
